@@ -713,9 +713,7 @@ resolve_harness!(c16_resolve_only_b, 0b0010, false);
 
 /// The peek/next wrappers over a symbolic look-ahead state: `current` holds an event or not,
 /// `stream_end_emitted` is set or not (never both), next token concrete (a scalar).
-#[kani::proof]
-#[kani::unwind(6)]
-pub fn c17_peek_next_wrapper_states() {
+fn peek_next_wrapper_state(cached: bool, emitted: bool, first_is_peek: bool) {
     let mut k = [0u8; MAXTOK];
     k[0] = tk::SCALAR;
     let mut p = Parser::new(StrInput::new(""));
@@ -723,10 +721,11 @@ pub fn c17_peek_next_wrapper_states() {
     p.scanner.verif_set_stream_flags(true, false);
     p.state = State::BlockNode;
     p.states.push(State::DocumentEnd);
-    let cached: bool = kani::any();
-    let emitted: bool = kani::any();
-    kani::assume(!(cached && emitted));
-    let sp = Span::new(Marker::new(40, 2, 3), Marker::new(41, 2, 4));
+    // the span of the cached event is symbolic; the look-ahead state and the first call are harness
+    // parameters (symbolic flags join parser states and the run does not finish)
+    let a: usize = kani::any();
+    kani::assume(a < 1000);
+    let sp = Span::new(Marker::new(a, 2, 3), Marker::new(a + 1, 2, 4));
     if cached {
         p.current = Some((Event::SequenceEnd, sp));
     }
@@ -734,7 +733,6 @@ pub fn c17_peek_next_wrapper_states() {
     if sym::playback() {
         eprintln!("VERIF-INPUT look_ahead_cached={} stream_end_emitted={}", cached, emitted);
     }
-    let first_is_peek: bool = kani::any();
     if first_is_peek {
         let r = p.peek();
         if emitted {
@@ -760,11 +758,25 @@ pub fn c17_peek_next_wrapper_states() {
         assert!(p.scanner.verif_inject.as_ref().unwrap().pos == pos_before, "C17: next read a token although an event was cached");
     }
     assert!(p.current.is_none(), "C17: next left a cached event behind");
-    kani::cover!(cached && first_is_peek, "must: cached peek reached");
-    kani::cover!(!cached && !emitted && first_is_peek, "must: peek that parses reached");
+    kani::cover!(true, "must: compared");
     std::mem::forget(r);
     std::mem::forget(p);
 }
+macro_rules! wrapper_harness {
+    ($name:ident, $cached:expr, $emitted:expr, $peek:expr) => {
+        #[kani::proof]
+        #[kani::unwind(6)]
+        pub fn $name() {
+            peek_next_wrapper_state($cached, $emitted, $peek);
+        }
+    };
+}
+wrapper_harness!(c17_wrapper_cached_peek_next, true, false, true);
+wrapper_harness!(c17_wrapper_cached_next, true, false, false);
+wrapper_harness!(c17_wrapper_fresh_peek_next, false, false, true);
+wrapper_harness!(c17_wrapper_fresh_next, false, false, false);
+wrapper_harness!(c17_wrapper_ended_peek_next, false, true, true);
+wrapper_harness!(c17_wrapper_ended_next, false, true, false);
 
 /// Fuse: from the state just before the end of the stream (token template [StreamEnd]) a history of
 /// four peek/next calls (the history is a harness parameter: a symbolic history joins parser states
